@@ -190,10 +190,32 @@ func ruleUnknownStream(p *Prog, r *Out) {
 		}
 		return true
 	})
+	// the `id <= lastID` test in front of the lookup is only a shortcut: no entry with a higher id
+	// survives the frame that created it, so an unguarded search finds the same thing
+	if !lookup {
+		guardedElsewhere := false
+		ast.Inspect(fd.Body, func(n ast.Node) bool {
+			if ifs, ok := n.(*ast.IfStmt); ok {
+				inspectCalls(ifs.Body, func(cl *ast.CallExpr) {
+					if p.calleeOf(cl) == "(*Streams).Search" && strings.Contains(p.text(ifs.Cond), "lastID") {
+						guardedElsewhere = true
+					}
+				})
+			}
+			return true
+		})
+		if !guardedElsewhere {
+			inspectCalls(fd.Body, func(cl *ast.CallExpr) {
+				if p.calleeOf(cl) == "(*Streams).Search" && len(cl.Args) == 1 && squash(p.text(cl.Args[0])) == "fr.Stream()" {
+					lookup = true
+				}
+			})
+		}
+	}
 	pos := p.pos(fd.Pos())
 	r.check(rstIdle, "RST_STREAM on an idle id only (id > lastID)", pos, "fr.Stream() > sc.lastID -> GOAWAY", "the test that makes RST_STREAM on an unknown stream a connection error is no longer exactly `id > lastID`: a late RST_STREAM for the most recent, already finished stream kills the connection (RFC 7540 s5.1: ignored on closed streams)")
 	r.check(lower, "lower-than-latest is strict (id < lastID)", pos, "fr.Stream() < sc.lastID -> GOAWAY", "the 'stream id lower than the latest' refusal is no longer exactly `id < lastID`")
-	r.check(lookup, "table lookup for ids up to lastID", pos, "fr.Stream() <= sc.lastID -> Search", "the stream table is no longer searched exactly for ids at or below the highest accepted one: ids above it must go through creation (limit, closing and ordering tests), ids at or below it must be found")
+	r.check(lookup, "table lookup for ids up to lastID", pos, "fr.Stream() <= sc.lastID -> Search", "the stream table is searched under a condition on lastID other than `id <= lastID` (or not at all): ids at or below the highest accepted one must be found, or they are created a second time")
 }
 
 func ruleCompletionCloses(p *Prog, r *Out) {
